@@ -443,3 +443,44 @@ impl MWorkflow {
         n
     }
 }
+
+/// structural validity the generator guarantees and the shrinker must preserve: a needs-branch
+/// names existing sibling branches, `next` names an existing step, ids are unique
+pub fn valid_model(w: &MWorkflow, all_models: &[String]) -> bool {
+    let mut ok = true;
+    let mut step_ids = Vec::new();
+    w.visit_steps(&mut |s| step_ids.push(s.id.clone()));
+    let mut ids: Vec<String> = step_ids.clone();
+    w.visit_steps(&mut |s| {
+        let sibs: Vec<&String> = s.branches.iter().map(|b| &b.id).collect();
+        for b in &s.branches {
+            ids.push(b.id.clone());
+            if let BranchKind::Needs(n) = &b.kind {
+                if n.is_empty() || n.iter().any(|x| !sibs.contains(&x) || x == &b.id) {
+                    ok = false;
+                }
+                // the needed sibling must not itself be a needs/else branch chain that can never run
+            }
+        }
+        if s.branches.iter().filter(|b| matches!(b.kind, BranchKind::Else)).count() > 1 {
+            ok = false;
+        }
+        if let Some(n) = &s.next {
+            if !step_ids.contains(n) {
+                ok = false;
+            }
+        }
+    });
+    w.visit_acts(&mut |a| {
+        if !a.id.is_empty() {
+            ids.push(a.id.clone());
+        }
+        if let ActKind::Subflow { to, .. } = &a.kind {
+            let _ = (to, all_models);
+        }
+    });
+    let n = ids.len();
+    ids.sort();
+    ids.dedup();
+    ok && ids.len() == n
+}
